@@ -24,6 +24,7 @@ func propC02(reps int) func(model.Case) hh.Verdict {
 		if c.Exec.Mode == "parse" {
 			in = c.Input.Go()
 		}
+		processPrelude() // the process has handled an invalid input and survived a panicking callback before
 		for r := 0; r < reps; r++ {
 			res := model.Run(schema, env, c.Exec, in, newDest(typ, c, false))
 			if res.Panic != nil {
